@@ -73,7 +73,9 @@ let parse_op ?(npv = false) (s : string) : c20_op * bool =
     | x -> raise (Bad_op x)
   else
   match t.(0) with
-  | "new" when List.mem t.(2) ["npint"; "npf32"; "np2d"; "bytearray"; "arrayi"] -> C20_NewBadBuffer, false
+  | "new" when List.mem t.(2) ["npint"; "npf32"; "bytearray"; "arrayi"] -> C20_NewBadBuffer (false, nat_of_int 1), false
+  | "new" when t.(2) = "np2d" -> C20_NewBadBuffer (true, nat_of_int 2), false
+  | "newfrom" -> C20_NewFromBuf (r 1, r 2), false       (* FieldVector_n( R[r] ) through the buffer constructor *)
   | "new" -> C20_New (r 1, ql 3), false
   | "copyargs" -> C20_CopyArgs (r 1, ql 2), false
   | "float" -> C20_Float (r 1), false
@@ -192,6 +194,30 @@ let tv_line (parts : string list) : string =
          | C20_Exc e -> add ("alias=!" ^ exc_name e)));
     String.concat " | " (List.rev !out)
 
+(* `dyn` / `dynj` scripts (DynamicVector, no aliasing between objects): the ops the model covers -- new, get, set, len, iter --
+   through c20_dyn_index (the Python index wrapper + C++ bounds check); a script with any other op prints "-" (oracle only) *)
+let dyn_line (parts : string list) : string =
+  let regs = ref [||] in
+  let dump () = "{" ^ String.concat "|" (Array.to_list (Array.map (fun l -> "d[" ^ string_of_qlist l ^ "]") !regs)) ^ "}" in
+  let toks = List.map (fun p ->
+    let t = Array.of_list (List.filter (fun x -> x <> "") (String.split_on_char ' ' (String.trim p))) in
+    let r () = int_of_string t.(1) in
+    match t.(0) with
+    | "new" -> let l = if t.(2) = "noarg" then [] else qlist_of_string t.(3) in
+               regs := Array.append !regs [| l |]; "d[" ^ string_of_qlist l ^ "]"
+    | "len" -> "i:" ^ string_of_int (List.length (!regs).(r ()))
+    | "iter" -> "l[" ^ string_of_qlist (!regs).(r ()) ^ "]"
+    | "get" -> let l = (!regs).(r ()) in
+               (match c20_dyn_index (nat_of_int (List.length l)) (z_of_int (int_of_string t.(2))) with
+                | C20_Ok j -> "s:" ^ string_of_q (List.nth l (int_of_nat j))
+                | C20_Exc e -> "!" ^ exc_name e)
+    | "set" -> let l = (!regs).(r ()) in
+               (match c20_dyn_index (nat_of_int (List.length l)) (z_of_int (int_of_string t.(2))) with
+                | C20_Ok j -> (!regs).(r ()) <- List.mapi (fun k x -> if k = int_of_nat j then q_of_string t.(3) else x) l; "ok" ^ dump ()
+                | C20_Exc e -> "!" ^ exc_name e ^ dump ())
+    | x -> raise (Bad_op x)) parts in
+  String.concat " ; " toks ^ " # " ^ dump ()
+
 let () =
   let cfg = if (Array.length Sys.argv > 2 && Sys.argv.(2) = "current") || Sys.getenv_opt "C20_CFG" = Some "current"
             then c20_cfg_current else c20_cfg_fixed in
@@ -203,11 +229,13 @@ let () =
         let parts = String.split_on_char ';' line in
         let head = String.trim (List.hd parts) in
         if head = "tv" || head = "tva" then tv_line (List.tl parts) else
+        if head = "dyn" || head = "dynj" then (try dyn_line (List.tl parts) with Bad_op _ -> "-") else
         let npv = (head = "npv") in
         let parts = if npv then List.tl parts else parts in
         let ops = List.map (fun s -> parse_op ~npv (String.trim s)) parts in
         let st = ref c20_init and toks = ref [] in
-        List.iter (fun (op, dumps) ->
+        List.iter (fun (op, _) ->
+          let dumps = c20_mutating op in                  (* the extracted classification used by C20_in_place_frame *)
           let (st', ob) = c20_step_reg cfg !st op in
           st := st';
           toks := (obs_str ob ^ (if dumps then dump_str st' else "")) :: !toks) ops;
